@@ -16,6 +16,7 @@ CONSTANTS
   MaxKids,    \* max children per relation
   MinHi,      \* 0: every 0<=lo<=hi<=k ; 1: hi >= 1
   AllowStar,  \* BOOLEAN: also [lo..*] relations (UVL only)
+  OverHi,     \* BOOLEAN: also upper bounds above the number of children (reference documents of third-party formats only)
   Axes,       \* subset of {"abs","type","fcard","attr","ctc"}: enabled decoration stages
   Types,      \* feature types offered by SetType
   FCards,     \* feature cardinalities offered by SetFCard, as <<lo,hi>>
@@ -54,6 +55,7 @@ Init == /\ model = NewModelF(FName(1))
 CardChoices(k) ==
   {<<lo, hi>> \in (0..k) \X (MinHi..k) : lo <= hi}
   \cup (IF AllowStar THEN {<<lo, Star>> : lo \in 0..k} ELSE {})
+  \cup (IF OverHi THEN {<<lo, k + 2>> : lo \in 0..1} ELSE {})
 
 AddRelation(o, k, lo, hi) ==
   /\ stage = 0 /\ o >= pos /\ o <= NF /\ NF + k <= N
@@ -330,7 +332,7 @@ HistGrows     == [][Len(hist') = Len(hist) + 1 /\ SubSeq(hist', 1, Len(hist)) = 
 \* an edit history keeps the model it started from
 BaseKept      == [][stage = 6 => base' = base]_vars
 
-InvWellFormed == WellFormedTree(model) /\ WfCards(model)
+InvWellFormed == WellFormedTree(model) /\ (IF OverHi THEN WfCardsOver(model) ELSE WfCards(model))
 InvHistReplay == Len(hist) >= 1        \* hist is total
 
 \* L1: the six class predicates partition every admissible (n, lo, hi)
